@@ -39,6 +39,22 @@ CHECKS = {
                 note="Trusted: TLC, the driver, bounds (<= 2-3 objects, 8 template shapes incl. empty value, absent "
                      "attribute, wrong size; batches 0,1,2). A search is a snapshot taken at C_FindObjectsInit."),
 }
+CHECKS["C14"] = dict(level="model_checking", ref="DESIGN.md 5 C14", tech=TECH,
+    text="P11Tok.tla (token life cycle: free-slot initialisation, re-initialisation, softhsm2-util init/delete, PINs, "
+         "token objects, restart) is model checked for its invariants and action properties; every transition of the "
+         "bounded graphs is executed on the library and the softhsm2-util binary, and after every action the state of "
+         "EVERY token - seen through the acting library and by a new process - is validated by TLC (isolation, "
+         "restart, slot-from-serial, labels, flags, PINs, objects).",
+    note="Trusted: TLC, the driver, bounds (2-3 tokens, <= 2 sessions, <= 2-3 objects). softhsm2-util acts only while "
+         "the library is finalised. File backend in the quick tier, both backends in the thorough tier.")
+CHECKS["C04"] = dict(level="model_checking", ref="DESIGN.md 5 C04", tech=TECH,
+    text="P11Tok.tla tracks which PIN symbol is current for each user; TLC enumerates the histories of "
+         "C_InitToken/C_InitPIN/C_SetPIN/C_Login/restart within bounds; every transition is executed and after every "
+         "call a new process tries EVERY PIN symbol (prefix, extension, one-bit neighbour, embedded NUL, non-ASCII, "
+         "too short/long, empty, the other user's PIN) as SO and as user and reads the private sentinel object; TLC "
+         "demands that exactly the current PINs authenticate and nothing else changed.",
+    note="Trusted: TLC, the driver. 'All byte strings' is sampled through named relations with bytes drawn per seed "
+         "(3 concretisations quick, 50 thorough). Blob check accepts a wrong PIN with probability ~2^-24 by design.")
 NA = {
     "C17": "memory safety and arbitrary byte-level inputs are outside what a TLA+ specification and trace validation can "
            "observe (DESIGN.md 5 C17); crashes met while replaying are reported under the property whose check ran",
